@@ -4,6 +4,7 @@ import (
 	"fmt"
 	"go/types"
 	"strings"
+	"sync"
 
 	"golang.org/x/tools/go/ssa"
 )
@@ -126,14 +127,20 @@ func unsupp(format string, args ...any) {
 }
 
 var compCache = map[types.Type][]Comp{}
+var compMu sync.Mutex
 
 // comps flattens a Go type into SMT components.
 func comps(t types.Type) []Comp {
-	if c, ok := compCache[t]; ok {
+	compMu.Lock()
+	c, ok := compCache[t]
+	compMu.Unlock()
+	if ok {
 		return c
 	}
-	c := comps0(t)
+	c = comps0(t)
+	compMu.Lock()
 	compCache[t] = c
+	compMu.Unlock()
 	return c
 }
 
